@@ -16,7 +16,8 @@ cd $EV
 if [ -z "${SKIP_CONFIRM:-}" ]; then
   if [ -f $OUT/demo.sh ]; then bash $OUT/demo.sh > $LOG/demo_clean.log 2>&1; echo "confirm: demo on clean tree exit $?"; fi
 fi
-git apply $OUT/patch.diff || { echo "patch does not apply"; exit 2; }
+git apply $OUT/patch.diff 2>/dev/null || git apply -3 $OUT/patch.diff || { echo "patch does not apply"; cd /tmp; git -C /repo worktree remove --force $EV; exit 2; }
+git reset -q 2>/dev/null # a 3-way apply stages the result
 if [ -z "${SKIP_CONFIRM:-}" ]; then
   go build ./... && go vet ./... >/dev/null 2>&1; 
   go test -vet=off -count=1 ./... > $LOG/suite.log 2>&1; echo "confirm: suite with change exit $? ($(grep -c '^ok' $LOG/suite.log) ok, $(grep -c -E '^(FAIL|---)' $LOG/suite.log) fail lines)"
